@@ -454,6 +454,13 @@ def judge_dir(ctx, drv, files, root, out_dir, cleanup="full"):
     progs = progs_request(res)
     if progs is None:
         return {"kind": "machinery", "what": "recording wrappers did not see one call per program"}
+    # exact inverted indexes: a program is listed once under a name (the record has the name once as a key)
+    for index in ("labels", "taxa"):
+        for name, paths in res["json"][index].items():
+            if len(paths) != len(set(paths)):
+                return {"kind": "violation",
+                        "what": f"the {index} index lists a program twice under {name}: not the exact inverse of the records",
+                        "impl": {index: {name: paths}}, "spec": {index: {name: list(dict.fromkeys(paths))}}}
     # "its labels are those computed": independent oracle = the multiset union over ALL the entries of ProgramParser's
     # result (a hinted label may bear the name of a computed one), sorted distinct spans, projected on (start, end)
     for pr in progs:
@@ -823,8 +830,15 @@ def stream_helpers(ctx, drv):
         impl = [[k2, v] for k2, v in sorted(mdb.collect_labels(progs).items())]
         impl2 = [[k2, v] for k2, v in sorted(mdb.collect_taxa(progs).items())]
         m = drv.call("c11.collect", occ=occ)["r"]
+        ml = drv.call("c11.collect_labels", occ=occ)["r"]
         ctx.count("inverted-index", json.dumps(occ), nontrivial=bool(occ))
-        if impl != m or impl2 != m:
+        if any(len(v) != len(set(v)) for _, v in impl):
+            ctx.violations.append({"what": "collect_labels lists a program twice under a label name (not the exact inverse of the records)",
+                                   "replay": {"kind": "collect", "occurrences": occ, "impl_labels": impl, "model=spec": ml}})
+        elif impl != ml:
+            ctx.broken.append("corr:collect-labels")
+            ctx.notes.append({"occurrences": occ, "impl": impl, "model": ml})
+        if impl2 != m:
             ctx.violations.append({"what": "collect_labels/collect_taxa is not the inverted index of the records",
                                    "replay": {"kind": "collect", "occurrences": occ, "impl_labels": impl, "impl_taxa": impl2, "model=spec": m}})
 
